@@ -69,5 +69,14 @@ Theorem h1_exchange_f_eq meth m sizes s : h1_exchange_f meth m sizes s = h1_exch
 Proof.
   unfold h1_exchange_f, h1_exchange, read_final_response. rewrite read_final_f_eq.
   destruct (read_final (S (S max_1xx)) meth br_size 0 s); try reflexivity.
-  now rewrite read_body_f_eq.
+  unfold final_body. now rewrite read_body_f_eq.
+Qed.
+
+Theorem interim_heads_f_eq fuel : forall meth bufsize s,
+  interim_heads_f fuel meth bufsize s = interim_heads fuel meth bufsize s.
+Proof.
+  induction fuel as [|f IH]; intros; [reflexivity|]. cbn [interim_heads_f interim_heads].
+  rewrite read_response_head_f_eq.
+  destruct (read_response_head meth bufsize s) as [e|[r rest]]; [reflexivity|].
+  destruct (is_1xx_nonterminal (r_code r)); [|reflexivity]. now rewrite IH.
 Qed.
